@@ -726,7 +726,7 @@ def c31_shards(tier, seed):
     ops = 12000 if tier == "quick" else 40000
     for plan in ["SemiSpace", "GenCopy", "GenImmix", "Immix", "StickyImmix", "MarkSweep", "MarkCompact", "ConcurrentImmix", "PageProtect"]:
         for _ in range(1 if tier == "quick" else 4):
-            shards.append(gc_shard("A", plan, rnd, ops, flags=["resolve"], mutators=rnd.choice([1, 1, 2]), extra=["--layout", "map32"]))
+            shards.append(gc_shard("A", plan, rnd, ops, flags=["resolve"], mutators=rnd.choice([1, 1, 2]), heap=rnd.choice([64, 128]), extra=["--layout", "map32"]))
     return shards
 
 
@@ -741,7 +741,7 @@ gcsim("C31", "Address-to-space resolution is total and exact",
       note="SFTSpaceMap attributes the whole 2 TiB address slot of a contiguous space to it, so addresses of a slot outside [start, start+extent) are not expected to be 'empty'. The VM map is only queried for addresses the SFT attributes to a space "
            "(Map64::get_descriptor_for_address indexes out of bounds for the unusable last slot below heap_end; not reachable through the public API). SFTDenseChunkMap (vm_space builds) is not covered.",
       design_ref="2/C31", shards=c31_shards,
-      floors={"quick": {"addresses_inside_live_objects": 500000, "space_boundary_addresses": 20000, "outside_heap_addresses": 5000, "random_chunk_addresses": 50000, "freed_object_addresses": 500, "addresses_resolved_to_empty": 30000}})
+      floors={"quick": {"addresses_inside_live_objects": 500000, "space_boundary_addresses": 20000, "outside_heap_addresses": 5000, "random_chunk_addresses": 50000, "freed_object_addresses": 500, "freed_multi_chunk_object_addresses": 300, "addresses_resolved_to_empty": 30000}})
 
 
 def c34_shards(tier, seed):
